@@ -122,12 +122,16 @@ Proof. repeat split; reflexivity. Qed.
 
 (** * Packet keys: [iterateHashes] and [ParsePath] *)
 
-Lemma iterate_hashes_shape p q t :
-  no_sep p = true -> no_sep q = true -> valid_triple t = true ->
+(** what the parser needs of the arguments: separator-free names, a uint64 sequence
+    (weaker than [valid_triple]: no length or character-class condition) *)
+Definition valid_triple_args (t : triple) : Prop :=
+  no_sep (t_src t) = true /\ no_sep (t_dst t) = true /\ t_seq t < two64.
+
+Lemma iterate_hashes_shape_args p q t :
+  no_sep p = true -> no_sep q = true -> valid_triple_args t ->
   iterate_hashes_parse (render (triple_shape p q) (triple_args t)) = Ok t.
 Proof.
-  intros Hp Hq V. unfold valid_triple in V. apply andb_true_iff in V as [V V3]. apply andb_true_iff in V as [V1 V2].
-  apply valid_chain_name_no_sep in V1, V2. apply N.ltb_lt in V3.
+  intros Hp Hq (V1 & V2 & V3).
   destruct t as [s d n]. cbn [t_src t_dst t_seq] in *.
   unfold iterate_hashes_parse, triple_shape, triple_args. cbn [t_src t_dst t_seq].
   cbn [render render_item get_s get_n nth_error app].
@@ -138,6 +142,17 @@ Proof.
           (split_sep_end _ (dec_no_sep n)).
   cbn [nth_error last]. rewrite (parse_uint_go_dec n V3). reflexivity.
 Qed.
+
+Lemma valid_triple_args_of t : valid_triple t = true -> valid_triple_args t.
+Proof.
+  unfold valid_triple. intro V. apply andb_true_iff in V as [V V3]. apply andb_true_iff in V as [V1 V2].
+  apply valid_chain_name_no_sep in V1, V2. apply N.ltb_lt in V3. repeat split; assumption.
+Qed.
+
+Lemma iterate_hashes_shape p q t :
+  no_sep p = true -> no_sep q = true -> valid_triple t = true ->
+  iterate_hashes_parse (render (triple_shape p q) (triple_args t)) = Ok t.
+Proof. intros Hp Hq V. apply iterate_hashes_shape_args; auto using valid_triple_args_of. Qed.
 
 Theorem receipt_key_parse_roundtrip t : valid_triple t = true -> iterate_hashes_parse (packet_receipt_key t) = Ok t.
 Proof. unfold packet_receipt_key. rewrite shape_receipt. apply iterate_hashes_shape; reflexivity. Qed.
@@ -337,7 +352,7 @@ Proof.
   assert (NS : no_sep (dec (rev_number h) ++ x2d :: dec (rev_height h)) = true).
   { unfold no_sep. rewrite forallb_app. cbn [forallb]. fold (no_sep (dec (rev_number h))). fold (no_sep (dec (rev_height h))).
     rewrite !dec_no_sep. reflexivity. }
-  rewrite (split_sep_end _ NS). cbn [nth_error].
+  rewrite (split_sep_end _ NS). cbv beta iota.
   unfold parse_height_go.
   rewrite (split_on_app is_dash (dec (rev_number h)) x2d (dec (rev_height h)) (dec_no_dash _) eq_refl).
   rewrite (split_on_free is_dash _ (dec_no_dash (rev_height h))).
